@@ -361,7 +361,18 @@ pub fn resolve(raw: &Node) -> Node {
                 }
             }
             Node::Alt(v) => Node::Alt(v.iter().map(|c| go(c, next, closed)).collect()),
-            Node::Cat(v) => Node::Cat(v.iter().map(|c| go(c, next, closed)).collect()),
+            Node::Cat(v) => {
+                // a sequence inside a sequence is spliced in: the same language, and the renderer's look-ahead for a
+                // digit after a back-reference then sees the real successor
+                let mut out = vec![];
+                for c in v {
+                    match go(c, next, closed) {
+                        Node::Cat(inner) => out.extend(inner),
+                        other => out.push(other),
+                    }
+                }
+                Node::Cat(out)
+            }
             Node::Rep {
                 body,
                 min,
